@@ -472,9 +472,9 @@ class Intersection:
             pairs = list(new_pairs)
             for i, (ui, vi) in enumerate(pairs):
                 if isinstance(ui, Fraction):
-                    ui = ui.limit_denominator(10000)
+                    ui = ui.limit_denominator(Intersection.max_denom)
                 if isinstance(vi, Fraction):
-                    vi = vi.limit_denominator(10000)
+                    vi = vi.limit_denominator(Intersection.max_denom)
                 pairs[i] = (ui, vi)
         return pairs
 
